@@ -20,12 +20,12 @@ import (
 // shrunk and replayed like any other case; receiver and argument indices may coincide (aliasing).
 
 type act struct {
-	Op   string `json:"op"`
-	R    int    `json:"r"`              // receiver index
-	A    int    `json:"a,omitempty"`    // first argument index
-	B    int    `json:"b,omitempty"`    // second argument index
-	U    uint64 `json:"u,omitempty"`    // uint64 parameter (SetUInt64, CSelect condition, mutation selector)
-	Data string `json:"data,omitempty"` // bytes parameter (invalid encodings, messages, entropy)
+	Op   string   `json:"op"`
+	R    int      `json:"r"`              // receiver index
+	A    int      `json:"a,omitempty"`    // first argument index
+	B    int      `json:"b,omitempty"`    // second argument index
+	U    uint64   `json:"u,omitempty"`    // uint64 parameter (SetUInt64, CSelect condition, mutation selector)
+	Data string   `json:"data,omitempty"` // bytes parameter (invalid encodings, messages, entropy)
 	Step *pt.Step `json:"step,omitempty"` // e.repr: a value-preserving change of representation (white-box builds)
 }
 
